@@ -15,7 +15,7 @@ R17.5 errors are located    : in opcode implementations, the stack handle and th
 """
 from .. import facts as F
 from .. import terms as T
-from ..vmmodel import EXEC_ERR, JUMP_KINDS, PERMISSIVE, CONFIG, KindFlagEval, VMModel
+from ..vmmodel import ERRORS_ADT, EXEC_ERR, JUMP_KINDS, PERMISSIVE, CONFIG, KindFlagEval, VMModel
 
 
 def variants_built(node):
@@ -350,9 +350,12 @@ def check(fx, rep, tier):
         root2 = b["hir"]["value"]
         mutated = None
         for n, ps in F.calls(root2):
-            if (F.callee_def(n) or "") != "error::container::Locatable::locate":
+            is_locate = (F.callee_def(n) or "") == "error::container::Locatable::locate"
+            # the container's own located adder takes the location as its first argument
+            is_adder = n.get("k") == "MethodCall" and n["method"] == "add_located" and (n.get("recv_ty") or "").replace("&mut ", "").replace("&", "").startswith(ERRORS_ADT) and n["args"]
+            if not is_locate and not is_adder:
                 continue
-            if EXEC_ERR not in (n.get("def_full") or n.get("resolved") or "") and EXEC_ERR not in (n.get("ty") or ""):
+            if is_locate and EXEC_ERR not in (n.get("def_full") or n.get("resolved") or "") and EXEC_ERR not in (n.get("ty") or ""):
                 continue
             if mutated is None:
                 mutated = T.mutated_locals(root2)
